@@ -41,6 +41,8 @@ func main() {
 			genCitadel(seed, n, os.Args[5])
 		case "sds":
 			genSds(seed, n, os.Args[5])
+		case "file":
+			genFile(seed, n, os.Args[5])
 		default:
 			os.Exit(2)
 		}
@@ -54,6 +56,8 @@ func main() {
 			execTimer(os.Args[3], os.Args[4])
 		case "sds":
 			execSds(os.Args[3], os.Args[4])
+		case "file":
+			execFile(os.Args[3], os.Args[4])
 		default:
 			os.Exit(2)
 		}
@@ -67,6 +71,8 @@ func main() {
 			oracleTimer(os.Args[3], os.Args[4])
 		case "sds":
 			oracleSds(os.Args[3], os.Args[4])
+		case "file":
+			oracleFile(os.Args[3], os.Args[4])
 		default:
 			os.Exit(2)
 		}
